@@ -11,7 +11,9 @@ from vlib import *
 
 ASSUME = [
     "only node A's idle mechanism can end a connection: node B's keep-alive timeout is 120 s, no fault is injected and "
-    "the proxy only observes which side ended each TCP stream; closes not ended by A are not judged",
+    "the proxy only observes which side ended each TCP stream (tcp, ws); closes not ended by A are not judged; on quic "
+    "(no proxy, quinn idle timeout 60 s) the close is the remote node's ConnectionClosed event, i.e. the QUIC "
+    "connection really ended",
     "activity is stamped before the call and the close after it was observed, so NotBefore can only err on the lenient "
     "side; Eventually allows T + max(1 s, T) after the stamp taken after the last activity ended; networks whose "
     "scheduling-latency probe saw > 300 ms are re-run, never judged",
@@ -97,9 +99,10 @@ def networks(ctx, gen):
 
     def add(name, sched, T, role="single", ping=False, frm="A", perturb=0):
         n = {"name": name, "seed": rnd.randrange(1 << 30), "T": T, "role": role, "from": frm, "perturb": perturb, "sched": sched, "tick_ms": T / 2.0,
-             # every fourth network runs over WebSocket (same byte proxy); QUIC has no proxy to observe the close and is
-             # covered for connection termination by C07 only
-             "transport": "ws" if len(out) % 4 == 3 else "tcp"}
+             # every fourth network runs over WebSocket (same byte proxy), every sixth single-connection network over
+             # QUIC (no proxy: the close is observed at the remote node, which is told at once since the QUIC
+             # connection is closed explicitly when the connection task ends)
+             "transport": "quic" if len(out) % 6 == 5 and role == "single" else ("ws" if len(out) % 4 == 3 else "tcp")}
         if ping:
             n["ping_ms"] = max(20, T // 6)
             n["identify"] = True
